@@ -12,12 +12,21 @@
 (*         "DQL"   double_q_learning._dql_update                              *)
 (*         "DYNA"  dynaq.q_learning_update (no termination input)             *)
 (*         "PLAN"  dynaq.planning on a single remembered pair, n iterations   *)
+(*         "DQLN"  double_q_learning._dql_update on NEAR-TIES: the successor  *)
+(*                 row of the updated table holds values that are equal or    *)
+(*                 1 .. 6 float32 steps apart, at several magnitudes and      *)
+(*                 signs, written as float32 ordinals (device D4, see         *)
+(*                 TabularOps.tla); the other table values the actions        *)
+(*                 differently; every vector under NKEYS random keys (the     *)
+(*                 update has a key argument: its result must not depend on   *)
+(*                 it beyond the choice among true maximisers)                *)
 EXTENDS TabularOps, TLC, Json
 
 CONSTANTS NS,    \* number of states
           NA,    \* number of actions
           ALG,   \* which code section
           LAT,   \* lattice size: 0 quick, 1 thorough
+          NKEYS, \* "DQLN": random keys per vector
           EMIT
 
 VARIABLES pc,    \* "idx" -> "tables" -> "params" -> "done"
@@ -34,7 +43,7 @@ ValsB   == IF LAT = 0 THEN {Q(-1, 1), One} ELSE {Q(-1, 1), One, Q(1, 4)}
 Rewards == IF LAT = 0 THEN {Q(-1, 1), Half} ELSE {Q(-1, 1), Zero, Half}
 Gammas  == {Zero, Half, One}
 Lrs     == IF LAT = 0 THEN {Half, One} ELSE {Q(1, 4), Half, One}
-Flips   == IF LAT = 0 \/ NS > 2 THEN {0} ELSE {0, 1}
+Flips   == IF LAT = 0 \/ NS > 2 \/ ALG = "DQLN" THEN {0} ELSE {0, 1}
 Dists   == IF NS = 2 THEN {<<One, Zero>>, <<Half, Half>>, <<Q(1, 4), Q(3, 4)>>}
            ELSE {<<One, Zero, Zero>>, <<Half, Half, Zero>>, <<Q(1, 4), Q(1, 4), Half>>,
                  <<Zero, Half, Half>>, <<Q(1, 3), Q(1, 3), Q(1, 3)>>}
@@ -42,6 +51,19 @@ PlanVals == {Zero, I(2)}
 V0s     == IF LAT = 0 THEN {Half, I(2)} ELSE Vals   \* value of the visited entry
 PlanRRows == {f \in [1..NS -> {Q(-1, 1), Half}] : LAT = 1 \/ f[1] = Q(-1, 1)}
 PlanNs  == {1, 2}
+
+(* near-tie lattice ("DQLN"): the row of the successor is sg * (ordinal of 2^e + level) *)
+IsNear     == ALG = "DQLN"
+NearExps   == IF LAT = 0 THEN {-10, 1, 10} ELSE {-10, 0, 1, 10}
+NearSigns  == {1, -1}
+NearLevels == IF LAT = 0 THEN {-2, 0, 1, 3} ELSE {-3, -1, 0, 1, 2, 3}   \* negative: below the power of two (finer spacing)
+NearV0s    == {Half}
+NearRowsB  == {f \in [1..NA -> ValsB] : \E b, c \in 1..NA : f[b] # f[c]}    \* the other table values the actions differently
+Keys       == IF IsNear THEN 0..(NKEYS - 1) ELSE {0}
+NearTol    == 64                                               \* deviation: "within 64 float32 steps is as good as equal"
+RECURSIVE Pow2(_)
+Pow2(k)    == IF k = 0 THEN 1 ELSE 2 * Pow2(k - 1)
+Pow2Q(e, sg) == IF e >= 0 THEN I(sg * Pow2(e)) ELSE Q(sg, Pow2(0 - e))    \* the rational sg * 2^e
 
 (* sentinel tables: every entry distinct, none in Vals; increasing or decreasing *)
 Idx(s, a) == s * NA + a
@@ -66,7 +88,7 @@ ChooseIdx ==
   /\ UNCHANGED <<adm, dev>>
 
 ChooseTables ==
-  /\ pc = "tables"
+  /\ pc = "tables" /\ ~IsNear
   /\ \E rowA \in [1..NA -> Vals], v0 \in (IF ALG = "PLAN" THEN PlanVals ELSE V0s) :
      \E rowB \in (IF ALG = "DQL" THEN [1..NA -> ValsB] ELSE {[b \in 1..NA |-> One]}) :
      \E trow \in (IF ALG = "PLAN" THEN Dists ELSE {<<>>}) :
@@ -74,14 +96,30 @@ ChooseTables ==
         v' = [alg |-> ALG, s |-> v.s, a |-> v.a, s2 |-> v.s2, a2 |-> v.a2, flip |-> v.flip,
               qA |-> Put(SetRow(BaseA(v.flip), v.s2, rowA), v.s, v.a, v0),
               qB |-> SetRow(BaseB(v.flip), v.s2, rowB),
-              trow |-> trow, rrow |-> rrow]
+              trow |-> trow, rrow |-> rrow, orow |-> <<>>, base |-> <<>>]
   /\ pc' = "params"
   /\ UNCHANGED <<adm, dev>>
 
-Full(r, term, gamma, lr, n) ==
+(* near-tie tables: row s2 of the updated table by ordinals.  When the visited *)
+(* entry lies in that row (s = s2) it is the power of two itself (level 0),   *)
+(* whose rational value TLC knows; the rational table qA is only read there.  *)
+ChooseTablesNear ==
+  /\ pc = "tables" /\ IsNear
+  /\ \E e \in NearExps, sg \in NearSigns, lv \in [1..NA -> NearLevels], v0 \in NearV0s, rowB \in NearRowsB :
+       /\ (v.s = v.s2) => (lv[v.a + 1] = 0 /\ v0 = CHOOSE x \in NearV0s : TRUE)
+       /\ v' = [alg |-> ALG, s |-> v.s, a |-> v.a, s2 |-> v.s2, a2 |-> v.a2, flip |-> v.flip,
+                qA |-> Put(BaseA(v.flip), v.s, v.a, IF v.s = v.s2 THEN Pow2Q(e, sg) ELSE v0),
+                qB |-> SetRow(BaseB(v.flip), v.s2, rowB),
+                trow |-> <<>>, rrow |-> <<>>,
+                orow |-> [b \in 1..NA |-> sg * (OrdOf(e, 0) + lv[b])],
+                base |-> [ord |-> sg * OrdOf(e, 0), val |-> Pow2Q(e, sg)]]
+  /\ pc' = "params"
+  /\ UNCHANGED <<adm, dev>>
+
+Full(r, term, gamma, lr, n, key) ==
   [alg |-> ALG, s |-> v.s, a |-> v.a, s2 |-> v.s2, a2 |-> v.a2, flip |-> v.flip,
-   qA |-> v.qA, qB |-> v.qB, trow |-> v.trow, rrow |-> v.rrow,
-   r |-> r, term |-> term, gamma |-> gamma, lr |-> lr, n |-> n]
+   qA |-> v.qA, qB |-> v.qB, trow |-> v.trow, rrow |-> v.rrow, orow |-> v.orow, base |-> v.base,
+   r |-> r, term |-> term, gamma |-> gamma, lr |-> lr, n |-> n, key |-> key]
 
 Result(w) ==
   CASE ALG = "QL"    -> QLSet(w.qA, w.s, w.a, w.r, w.s2, w.gamma, w.term, w.lr)
@@ -89,18 +127,23 @@ Result(w) ==
     [] ALG = "DQL"   -> DQLSet(w.qA, w.qB, w.s, w.a, w.r, w.s2, w.gamma, w.term, w.lr)
     [] ALG = "DYNA"  -> {DynaQ(w.qA, w.s, w.a, w.r, w.s2, w.gamma, w.lr)}
     [] ALG = "PLAN"  -> PlanFold({w.qA}, w.trow, w.rrow, w.s, w.a, w.n, w.gamma, w.lr)
+    [] ALG = "DQLN"  -> DQLSetOrd(w.qA, w.orow, w.qB, w.s, w.a, w.r, w.s2, w.gamma, w.term, w.lr)
 
+(* named deviations: DQL - greedy action of the CURRENT state (one table);     *)
+(* DQLN - near-ties treated as ties (the set of tables admissible then)        *)
 Deviation(w) ==
   IF ALG = "DQL" THEN DQLGreedyAtCurrent(w.qA, w.qB, w.s, w.a, w.r, w.s2, w.gamma, w.term, w.lr)
+  ELSE IF IsNear THEN DQLSetOrdTolerant(w.qA, w.orow, w.qB, w.s, w.a, w.r, w.s2, w.gamma, w.term, w.lr, NearTol)
   ELSE <<>>
 
 ParamChoices ==
-  {Full(r, term, gamma, lr, n) :
-     r \in (IF ALG = "PLAN" THEN {Zero} ELSE Rewards),
+  {Full(r, term, gamma, lr, n, key) :
+     r \in (IF ALG = "PLAN" THEN {Zero} ELSE IF IsNear THEN {Half} ELSE Rewards),
      term \in (IF ALG \in {"DYNA", "PLAN"} THEN {FALSE} ELSE BOOLEAN),
-     gamma \in (IF ALG = "PLAN" THEN {Half, One} ELSE Gammas),
-     lr \in (IF ALG = "PLAN" THEN {Half, One} ELSE Lrs),
-     n \in (IF ALG = "PLAN" THEN PlanNs ELSE {0})}
+     gamma \in (IF ALG = "PLAN" THEN {Half, One} ELSE IF IsNear THEN (IF LAT = 0 THEN {Half} ELSE {Half, One}) ELSE Gammas),
+     lr \in (IF ALG = "PLAN" THEN {Half, One} ELSE IF IsNear THEN (IF LAT = 0 THEN {Half} ELSE {Half, One}) ELSE Lrs),
+     n \in (IF ALG = "PLAN" THEN PlanNs ELSE {0}),
+     key \in Keys}
 
 ChooseParams ==
   /\ pc = "params"
@@ -108,10 +151,11 @@ ChooseParams ==
        /\ v' = w
        /\ adm' = Result(w)
        /\ dev' = Deviation(w)
-       /\ Emit([v |-> w, adm |-> adm', dev |-> dev', g2 |-> GreedySet(w.qA, w.s2)])
+       /\ Emit([v |-> w, adm |-> adm', dev |-> dev',
+                g2 |-> IF IsNear THEN OrdGreedySet(w.orow) ELSE GreedySet(w.qA, w.s2)])
   /\ pc' = "done"
 
-Next == ChooseIdx \/ ChooseTables \/ ChooseParams
+Next == ChooseIdx \/ ChooseTables \/ ChooseTablesNear \/ ChooseParams
 Spec == Init /\ [][Next]_vars
 
 ----------------------------------------------------------------------------
@@ -123,6 +167,7 @@ Textbook(old, r, gamma, mask, vnext, lr) ==
   QAdd(QMul(QSub(One, lr), old), QMul(lr, QAdd(r, QMul(gamma, QMul(mask, vnext)))))
 
 IsMaximiser(q, s, b) == \A c \in Actions : QLe(At(q, s, c), At(q, s, b))
+IsOrdMaximiser(orow, b) == \A c \in Actions : orow[c + 1] <= orow[b + 1]
 
 OnlyVisitedEntryChanges ==
   Done => \A q1 \in adm : \A x \in States, b \in Actions :
@@ -138,6 +183,8 @@ UpdateEquation ==
             [] ALG = "SARSA" -> new = Textbook(old, v.r, v.gamma, NotTerm(v.term), At(v.qA, v.s2, v.a2), v.lr)
             [] ALG = "DQL"   -> \E b \in Actions : /\ IsMaximiser(v.qA, v.s2, b)
                                                   /\ new = Textbook(old, v.r, v.gamma, NotTerm(v.term), At(v.qB, v.s2, b), v.lr)
+            [] ALG = "DQLN"  -> \E b \in Actions : /\ IsOrdMaximiser(v.orow, b)
+                                                  /\ new = Textbook(old, v.r, v.gamma, NotTerm(v.term), At(v.qB, v.s2, b), v.lr)
             [] ALG = "DYNA"  -> new = Textbook(old, v.r, v.gamma, One, QMaxSeq(Row(v.qA, v.s2)), v.lr)
             [] ALG = "PLAN"  -> v.n = 1 =>
                                   \E x \in States : /\ \A y \in States : QLe(v.trow[y + 1], v.trow[x + 1])
@@ -145,21 +192,30 @@ UpdateEquation ==
 
 (* a terminal transition with learning rate 1 overwrites the entry with the reward *)
 TerminalTarget ==
-  (Done /\ ALG \in {"QL", "SARSA", "DQL"} /\ v.term /\ v.lr = One) =>
+  (Done /\ ALG \in {"QL", "SARSA", "DQL", "DQLN"} /\ v.term /\ v.lr = One) =>
      \A q1 \in adm : At(q1, v.s, v.a) = v.r
 
 (* every admissible greedy successor action maximises the updated table at s2 *)
-GreedyIsMax == Done => \A b \in GreedySet(v.qA, v.s2) : IsMaximiser(v.qA, v.s2, b)
+GreedyIsMax == Done => IF IsNear THEN \A b \in OrdGreedySet(v.orow) : IsOrdMaximiser(v.orow, b)
+                               ELSE \A b \in GreedySet(v.qA, v.s2) : IsMaximiser(v.qA, v.s2, b)
+
+(* a near-tie is not a tie: when the values of the successor row are pairwise *)
+(* distinct floats - however close - there is exactly one admissible result,  *)
+(* the same under every key                                                   *)
+StrictMaximumDecides ==
+  (Done /\ IsNear /\ \A b, c \in Actions : (b # c => v.orow[b + 1] # v.orow[c + 1])) =>
+     Cardinality(adm) = 1
 
 ----------------------------------------------------------------------------
-(* deviation canary: double Q-learning with the greedy action of the CURRENT  *)
-(* state must be refuted by UpdateEquation                                     *)
+(* deviation canaries: double Q-learning with the greedy action of the        *)
+(* CURRENT state (DQL) / with near-ties treated as ties (DQLN) must be         *)
+(* refuted by UpdateEquation                                                   *)
 ChooseParamsBad ==
   /\ pc = "params"
   /\ \E w \in ParamChoices :
        /\ v' = w
-       /\ adm' = {Deviation(w)}
+       /\ adm' = IF IsNear THEN Deviation(w) ELSE {Deviation(w)}
        /\ dev' = <<>>
   /\ pc' = "done"
-NextBad == ChooseIdx \/ ChooseTables \/ ChooseParamsBad
+NextBad == ChooseIdx \/ ChooseTables \/ ChooseTablesNear \/ ChooseParamsBad
 =============================================================================
